@@ -156,6 +156,11 @@ def xarray_domain(prog: dict) -> bool:
             if tuple(sp) in seen:
                 return False  # two >= 2-D arrays zipped on the same axes (a 2-D MultiIndex is not supported by pandas)
             seen.add(tuple(sp))
+    # the same two situations reached through intermediate arrays (C19's recorded findings, structural predicates)
+    from checks.c19_xarray import never_named_axis, zip_of_2d
+
+    if zip_of_2d(prog, True) or never_named_axis(prog):
+        return False
     return True
 
 
